@@ -135,7 +135,7 @@ func c20EnumValues(yield func(c20ValueCase)) {
 
 func c20RunValue(ctx *Ctx, c c20ValueCase) {
 	ctx.Eval(c.Field, true, "stage:extension-values")
-	url := "http://example.org/ext/" + strings.TrimPrefix(c.Field, "!")
+	url := []string{"http://example.org/ext/", "http://Example.ORG/ext/", "HTTPS://example.org/Ext/", "urn:oid:1.2.", "ext-"}[len(c.Field)%5] + strings.TrimPrefix(c.Field, "!")
 	g := guard(func() {
 		if strings.HasPrefix(c.Field, "!") {
 			var e proto.Message
@@ -352,14 +352,37 @@ type c20MutCase struct {
 	URL   int    `json:"url"`
 	N     int    `json:"n"`     // number of new values/extensions
 	Carry string `json:"carry"` // extendable kind
+	// Set: the three URLs of this case (default c20URLs): spellings that differ in case, scheme,
+	// trailing slash, fragment, or are no absolute URLs at all - a URL is an opaque string
+	Set []string `json:"set,omitempty"`
 }
 
 var c20URLs = []string{"http://example.org/a", "http://example.org/b", "http://example.org/c"}
+
+var c20URLPool = []string{"http://example.org/a", "http://Example.org/a", "HTTP://example.org/a", "http://EXAMPLE.ORG/A", "https://example.org/a", "http://example.org/a/", "http://example.org/a#x", "http://example.org/A",
+	"http://example.org:80/a", "http://example.org/a?v=1", "urn:oid:1.2.3", "URN:OID:1.2.3", "urn:uuid:0e0b0cbe-0b1a-4b8e-9f7e-0f0e0d0c0b0a", "ext-a", "Ext-A", "a", "http://hl7.org/fhir/StructureDefinition/patient-birthPlace", "http://HL7.org/fhir/StructureDefinition/patient-birthPlace", " http://example.org/a", "http://example.org/a%20b", "http://example.org/é"}
+
+func (c c20MutCase) urls() []string {
+	if len(c.Set) == 3 {
+		return c.Set
+	}
+	return c20URLs
+}
 
 func c20GenMut(s Src) c20MutCase {
 	c := c20MutCase{Op: pickOne(s, []string{"upsert", "setbyurl", "append", "overwrite", "clear", "upsert", "setbyurl"}), URL: s.Intn(3), N: s.Range(0, 3), Carry: pickOne(s, []string{"Patient", "HumanName", "String", "Observation"})}
 	for i := 0; i < s.Range(0, 6); i++ {
 		c.URLs = append(c.URLs, s.Intn(3))
+	}
+	if s.Prob(60) {
+		// three different spellings, often near twins of one another
+		i := s.Intn(len(c20URLPool))
+		for _, d := range []int{0, pickOne(s, []int{1, 1, 2, 5}), pickOne(s, []int{3, 7, 11})} {
+			c.Set = append(c.Set, c20URLPool[(i+d)%len(c20URLPool)])
+		}
+		if c.Set[0] == c.Set[1] || c.Set[1] == c.Set[2] || c.Set[0] == c.Set[2] {
+			c.Set = nil
+		}
 	}
 	return c
 }
@@ -378,9 +401,9 @@ func c20RunMut(ctx *Ctx, c c20MutCase) {
 	}
 	var before []*dtpb.Extension
 	for i, u := range c.URLs {
-		before = append(before, &dtpb.Extension{Url: &dtpb.Uri{Value: c20URLs[u]}, Value: &dtpb.Extension_ValueX{Choice: &dtpb.Extension_ValueX_Integer{Integer: &dtpb.Integer{Value: int32(i)}}}})
+		before = append(before, &dtpb.Extension{Url: &dtpb.Uri{Value: c.urls()[u]}, Value: &dtpb.Extension_ValueX{Choice: &dtpb.Extension_ValueX_Integer{Integer: &dtpb.Integer{Value: int32(i)}}}})
 	}
-	target := c20URLs[c.URL]
+	target := c.urls()[c.URL]
 	nTarget, nOther := 0, 0
 	for _, u := range c.URLs {
 		if u == c.URL {
